@@ -91,9 +91,14 @@ class Env:
         y.w(0x10, *a0)
         y.x(0xB0, *second_frame)
         self.sim.advance(2 * MS)
-        self.sim.after(delay_us * US, lambda: self.Y.set_ce(True))
+        armed = [True]
+        self.sim.after(delay_us * US, lambda: armed[0] and self.Y.set_ce(True))
         sent = self.inject(frame, pipe)
+        # the second request either arrived inside this event's window or never: a start still pending is cancelled
+        # and the unsent frame flushed, so that it cannot show up during a later event of the history
+        armed[0] = False
         self.Y.set_ce(False)
+        y.x(0xE1)
         self.z.ce(False)
         for _ in range(3):
             self.master.update()
